@@ -74,6 +74,7 @@ RULES = {
     "R-OWNING-ITER": ("rules.ownership", "r_owning_iter"),
     "R-DUP-FORGET": ("rules.ownership", "r_dup_forget"),
     "R-DRAIN-PROTOCOL": ("rules.ownership", "r_drain_protocol"),
+    "R-GUARD-STALE-COUNT": ("rules.round3", "r_guard_stale_count"),
     "R-LINEAR-INNER": ("rules.ownership", "r_linear_inner"),
     "R-ALLOC-WHO": ("rules.ownership", "r_alloc_who"),
     "R-SINGLETON-GUARD": ("rules.ownership", "r_singleton_guard"),
@@ -360,6 +361,21 @@ for _p, _rs in _ROUND3.items():
     _extra = "; ".join(_ROUND3_CLAUSE[_r] for _r in _rs if _r in _ROUND3_CLAUSE)
     if _extra and _extra not in PROPS[_p]["decided"]:
         PROPS[_p]["decided"] += "; round 3: " + _extra
+
+# round 7 (regressions hidden inside refactorings)
+_ROUND7 = {'C02': ['R-GUARD-STALE-COUNT'], 'C03': ['R-GUARD-STALE-COUNT'], 'C04': ['R-GUARD-STALE-COUNT'], 'C11': ['R-GUARD-STALE-COUNT'],
+           'C06': ['R-DRAIN-PROTOCOL']}
+_ROUND7_CLAUSE = {
+    "R-GUARD-STALE-COUNT": "an unwind guard's clean-up never depends on an element count its creator stores only afterwards (R-GUARD-STALE-COUNT)",
+    "R-DRAIN-PROTOCOL": "a drain hands its table back only after resetting it, also when an element destructor panics (R-DRAIN-PROTOCOL)",
+}
+for _p, _rs in _ROUND7.items():
+    for _r in _rs:
+        if _r not in PROPS[_p]["rules"]:
+            PROPS[_p]["rules"].append(_r)
+    _extra = "; ".join(_ROUND7_CLAUSE[_r] for _r in _rs if _r in _ROUND7_CLAUSE)
+    if _extra and _extra not in PROPS[_p]["decided"]:
+        PROPS[_p]["decided"] += "; round 7: " + _extra
 
 # The collection-semantics properties all rest on the raw table doing its job: a lookup that stops at the right place, control
 # bytes that mean what the scans think they mean, counts that match the control bytes, the zero-sized encoding, the cursor
